@@ -478,6 +478,24 @@ def _corrupt(pred, run, w, limit):
         st["faults"] = [0, 0]
     elif pred == "T_C08_Rerouted":
         st["droppedOther"] = [1]
+    elif pred == "T_C04_SendOnlyToMarked":
+        if not st["dlog"]:
+            return None
+        st["dlog"][-1][8] = False
+    elif pred == "T_C04_BitsTrueWhenCalm":
+        k = _last_step(run, lambda r: calm_q(r) and nofault(r) and not r["st"]["wq"] and not r["st"]["cmdq"])
+        if k is None:
+            return None
+        run[k]["st"]["avail"][run[k]["st"]["handles"][0]] = False
+    elif pred == "T_C07_QueuedMeansWoken":
+        k = _last_step(run, lambda r: nofault(r) and r["st"]["wstate"] and r["st"]["wstate"][0] == "Available" and r["st"]["alive"][0] and r["st"].get("wwoken"))
+        if k is None:
+            return None
+        st = run[k]["st"]
+        st["chanLen"][0] = max(1, st["chanLen"][0])
+        st["wwoken"][0] = False
+    elif pred == "T_C08_NoLostIndex":
+        return None
     else:
         return None
     return run[:k + 1]
